@@ -486,3 +486,86 @@ def output_scenarios(r, n):
         if all(is_valid(x) for x in (base, local, remote)):
             out.append((base, local, remote, label))
     return out
+
+
+# ---- spec/OutputEdits.tla: one code cell whose outputs are edited one by one on both sides ------------------
+def _oe_base_output(kind, j):
+    if kind == "stream":
+        return {"output_type": "stream", "name": "stdout", "text": "output %d line one\nline two\nline three\n" % j}
+    if kind == "error":
+        return {"output_type": "error", "ename": "ValueError", "evalue": "bad value %d" % j,
+                "traceback": ["Traceback (most recent call last)", "  File \"x.py\", line %d" % j, "ValueError: bad value %d" % j]}
+    if kind == "result":
+        return {"output_type": "execute_result", "execution_count": 3, "metadata": {},
+                "data": {"text/plain": "<module.Foo %d at 0x7f3a>\nline two\nline three\n" % j, "image/png": B64A}}
+    if kind == "display":
+        return {"output_type": "display_data", "metadata": {"isolated": True},
+                "data": {"text/plain": "repr %d line one\nline two\nline three\n" % j, "text/html": "<b>bold %d</b>" % j,
+                         "image/png": B64A}}
+    raise ValueError(kind)
+
+
+def _oe_apply(cell, kinds, edits, listedit, tag):
+    outs = []
+    for j, (kind, ed) in enumerate(zip(kinds, edits)):
+        o = copy.deepcopy(cell["outputs"][j])
+        t = "both" if ed == "textS" else tag
+        if ed == "del":
+            continue
+        if ed in ("text", "textS"):
+            if kind == "stream":
+                o["text"] = o["text"].replace("line two\n", "line two edited by %s\n" % t)
+            elif kind == "error":
+                o["evalue"] += " (%s)" % t
+            else:
+                o["data"]["text/plain"] = o["data"]["text/plain"].replace("line two\n", "line two edited by %s\n" % t)
+        elif ed == "rewrite":
+            new = "completely different content written by %s\nnothing in common with before\n" % tag
+            if kind == "stream":
+                o["text"] = new
+            elif kind == "error":
+                o["ename"], o["evalue"], o["traceback"] = "KeyError", "'%s'" % tag, ["KeyError raised on %s" % tag]
+            else:
+                o["data"] = {"text/plain": new}
+        elif ed == "name":
+            o["name"] = "stderr"
+        elif ed == "tb":
+            o["traceback"][1] += " # %s" % tag
+        elif ed == "meta":
+            o["metadata"]["by"] = tag
+        elif ed == "mime":
+            o["data"]["image/png"] = B64B if tag == "local" else B64C
+        elif ed == "addmime":
+            o["data"]["text/latex"] = "$x_{%s}$" % tag
+        elif ed == "ec":
+            bump = 5 if tag == "local" else 7
+            o["execution_count"] += bump
+            cell["execution_count"] = 3 + bump
+        outs.append(o)
+    if listedit == "append":
+        outs.append({"output_type": "stream", "name": "stdout", "text": "appended by %s\n" % tag})
+    elif listedit == "appendS":
+        outs.append({"output_type": "stream", "name": "stdout", "text": "appended by both\n"})
+    elif listedit == "prepend":
+        outs.insert(0, {"output_type": "stream", "name": "stderr", "text": "prepended by %s\n" % tag})
+    cell["outputs"] = outs
+
+
+def output_edit_triple(case, k=0):
+    """(base, local, remote) notebooks for one state of OutputEdits.tla"""
+    minor = 5 if k % 2 else 4
+    kinds = case["kinds"]
+    code = {"cell_type": "code", "metadata": {}, "execution_count": 3, "source": source_variant(1 + k % 3, 0),
+            "outputs": [_oe_base_output(kind, j) for j, kind in enumerate(kinds)]}
+    md = {"cell_type": "markdown", "metadata": {}, "source": source_variant(2, 0)}
+    if minor >= 5:
+        code["id"], md["id"] = "cell-1", "cell-2"
+    cells = [md, code] if k % 4 >= 2 else [code, md]
+    base = {"nbformat": 4, "nbformat_minor": minor, "metadata": {}, "cells": cells}
+    ci = cells.index(code)
+    out = [nbformat.from_dict(copy.deepcopy(base))]
+    for edits, listedit, tag in ((case["le"], case["ll"], "local"), (case["re"], case["rl"], "remote")):
+        nb = copy.deepcopy(base)
+        _oe_apply(nb["cells"][ci], kinds, edits, listedit, tag)
+        out.append(nbformat.from_dict(nb))
+    return tuple(out)
